@@ -98,7 +98,7 @@ def fast_stochastic(F, S):
             ok_all = False
             S.bad("AP", "affine-position", fn.label, "%s: %s" % (fn.label, bad_leaf), loc(fn.span))
         else:
-            S.ok("AP", "%s in [0,100]" % fn.label, contract="Minimum.step(v) <= v <= Maximum.step(v) (window semantics, assumed)", min_over=show(a), max_over=show(b))
+            S.ok("AP", "%s in [0,100]" % fn.label, contract="Minimum.step(v) <= v <= Maximum.step(v) (window extremes: re-established by the I6/I7 instances of this rule)", min_over=show(a), max_over=show(b))
     return ok_all
 
 
@@ -147,7 +147,7 @@ def apply(F, S):
         if bad:
             S.bad("RW", "ratio-part-whole", fn.label, "%s is not 100 * P/(P+N) over its two flow totals: %s" % (fn.label, bad), loc(fn.span))
         else:
-            S.ok("RW", "%s in [0,100]" % fn.label, shape="100*P/(P+N) over the running totals", premise="totals non-negative (the property's conditioning clause; not decided)")
+            S.ok("RW", "%s in [0,100]" % fn.label, shape="100*P/(P+N) over the running totals", premise="in exact arithmetic the totals are sums of the non-negative flows in the window (step specification, re-checked under this rule); their floating-point residue is the property own conditioning clause")
     # AP: FastStochastic
     fs_ok = fast_stochastic(F, S)
     # CC: SlowStochastic = EMA(FastStochastic), EMA convex
